@@ -32,7 +32,8 @@ def floors(tier):
     return {"evals": 8000 if tier == "quick" else 150000, "distinct": 2000,
             "classes": {"op:POP_JUMP_IF_TRUE": 20, "op:POP_JUMP_IF_FALSE": 500, "op:POP_JUMP_IF_NONE": 20, "op:POP_JUMP_IF_NOT_NONE": 20,
                         "op:FOR_ITER": 200, "branchless-checked": 500, "exception-match": 50, "subset:BRANCH": 300,
-                        "subset:BRANCH+LINE": 300, "subset:BRANCH+LINE+CHECKED": 300, "both-outcomes-in-one-call": 100, "same-object-operands": 20}}
+                        "subset:BRANCH+LINE": 300, "subset:BRANCH+LINE+CHECKED": 300, "both-outcomes-in-one-call": 100, "same-object-operands": 20,
+                        "goal-verdicts-checked": 500, "tiny-positive-distance": 10}}
 
 
 def plan(tier, seed):
@@ -146,6 +147,7 @@ def _run_program(ctx, source, filename, modname, calls, describe, materialise):
     from pynguin.instrumentation import version
 
     import dis
+    import types
 
     twin = instr.Twin(source, filename)
     twin.do_import()
@@ -249,10 +251,33 @@ def _run_program(ctx, source, filename, modname, calls, describe, materialise):
                 else:
                     ctx.witness(f"taken-but-not-reported:{opk(missing)}", f"{fn}{args!r} under {{{tag}}}: {desc(missing)}", case)
                 continue
+            # ---- the goals' own verdict (BranchGoal.is_covered / BranchlessCodeObjectGoal.is_covered) on the same trace
+            result = types.SimpleNamespace(execution_trace=trace)
+            try:
+                goal_reported = {(g.predicate_id, g._value) for g in pool.branch_goals if g.is_covered(result)}  # noqa: SLF001
+                goal_entered = {g.code_object_id for g in pool.branchless_code_object_goals if g.is_covered(result)}
+            except Exception as e:  # noqa: BLE001
+                ctx.witness(f"goal-verdict:raises-{type(e).__name__}", f"{fn}{args!r} under {{{tag}}}: is_covered raised {e!r}", case)
+                continue
+            tiny = any(0.0 < d < 1e-6 for dd in (trace.true_distances, trace.false_distances) for d in dd.values())
+            ctx.ok(cls=["goal-verdicts-checked"] + (["tiny-positive-distance"] if tiny else []))
+            if goal_reported != expected:
+                g_extra, g_missing = goal_reported - expected, expected - goal_reported
+                m = inst.sp.existing_predicates
+                ctx.witness("goal-verdict:" + ("covered-but-not-taken" if g_extra else "taken-but-not-covered"),
+                            f"{fn}{args!r} under {{{tag}}}: the trace reports exactly the outcomes taken, but BranchGoal.is_covered is True for "
+                            f"{sorted(g_extra)[:4]} (not taken) / False for {sorted(g_missing)[:4]} (taken); distances "
+                            f"{[(p, trace.true_distances.get(p), trace.false_distances.get(p)) for p, _ in sorted(g_extra | g_missing)[:4]]}; lines "
+                            f"{[src_lines[m[p].line_no - 1].strip()[:50] for p, _ in sorted(g_extra | g_missing)[:4]]}", case)
+                continue
             # branch-less code objects / executed code objects
             exp_entered = {cid for cid, k in key_of_id.items() if k in entered or k in import_entered}
             rep_entered = set(trace.executed_code_objects)
             ctx.ok(cls="branchless-checked")
+            if goal_entered != (exp_entered & branchless_ids):
+                ctx.witness("goal-verdict:branchless-code-object:" + ("covered-but-not-entered" if goal_entered - exp_entered else "entered-but-not-covered"),
+                            f"{fn}{args!r} under {{{tag}}}: BranchlessCodeObjectGoal.is_covered is True for {sorted(goal_entered)}, entered branch-less code "
+                            f"objects are {sorted(exp_entered & branchless_ids)}", case)
             if rep_entered != exp_entered:
                 ctx.witness("code-objects-entered-differ:" + ("missing" if exp_entered - rep_entered else "extra"),
                             f"{fn}{args!r} under {{{tag}}}: reported {sorted(rep_entered)} expected {sorted(exp_entered)} ({[key_of_id[c] for c in exp_entered ^ rep_entered]})", case)
